@@ -1736,6 +1736,7 @@ fn execute_run(run: &Run, w: &WorldData, rc: &RunCfg, sc: &Scratch, san: bool) -
 	ctx.register(0);
 	verif_hooks::events_enable(true);
 	let sched_before = verif_hooks::sched_stats();
+	let _ = verif_hooks::resize_stats_take();
 	verif_hooks::sched_arm(rc.sched_seed | 1);
 	let t_conc = Instant::now();
 	tick(0, OP_JOINING);
@@ -1827,6 +1828,15 @@ fn execute_run(run: &Run, w: &WorldData, rc: &RunCfg, sc: &Scratch, san: bool) -
 		}
 	}
 	let sched_after = verif_hooks::sched_stats();
+	// hook H9: no transaction of an environment may be live when its memory map is enlarged
+	let (h9_resizes, h9_live) = verif_hooks::resize_stats_take();
+	run.count("db.enlargements_seen_by_the_live_transaction_monitor", h9_resizes);
+	for (env, n) in h9_live.iter().take(3) {
+		ctx.viol(
+			"map_enlarged_with_live_transactions",
+			format!("the memory map of {} was enlarged while {} transaction(s) of that environment were live in this process", env, n),
+		);
+	}
 	tick(0, OP_FINAL_REDELIVERY);
 	let mut st = std::mem::take(&mut *ctx.stats.lock().unwrap());
 	check_archives(&ctx, &mut st);
